@@ -1030,97 +1030,121 @@ def check_awaitable_share(ctx, R, classes):
                              fmt_path(evs) if not (conv or not awaited_here) else None)
 
 
+def _is_notify(e):
+    return (e.kind == 'DEFER' and e.c and 'notify' in e.c) or (e.kind == 'CALL' and e.c in ('notify', 'notify_all'))
+
+
+def _tested_fields(e):
+    """fields whose value decides this event: an if-test (COND) or the test of a while loop (its ITER / LOOPEXIT)"""
+    node = None
+    if e.kind == 'COND':
+        node = (e.x or {}).get('node')
+    elif e.kind in ('LOOPEXIT', 'ITER') and isinstance((e.x or {}).get('node'), ast.While) and (e.kind == 'ITER' or e.c == 'cond'):
+        node = e.x['node'].test
+    if node is None:
+        return set()
+    return {self_field(x) for x in ast.walk(node) if self_field(x)}
+
+
+def _is_cond_wait(e):
+    n = (e.x or {}).get('node')
+    return e.kind == 'SUS' and isinstance(n, ast.Call) and isinstance(n.func, ast.Attribute) and n.func.attr == 'wait' \
+        and 'condition' in src(n.func.value).lower()
+
+
 def check_mailbox(ctx, R, classes):
+    """single-slot mailbox (latest): decided on event paths, so helpers (`_store`, `_take`, `_wake_consumer`, a generator
+    `_until_parked` driven by `yield from`), renamed fields, flattened / break-style wait loops are transparent.
+      notifier  = an entry method with a path that stores into fields and then notifies a condition
+      slot      = the fields such a path stores into
+      forwarder = a coroutine that waits on the condition and emits
+      (a) predicate-recheck   each emission's read of the slot follows a test of the slot made after the last suspension
+      (b) consume-on-read     the slot is emptied before the emission suspends
+      (c) notify-on-every-store   every normal notifier path that stores an element notifies afterwards
+      (d) slot-wraps-element  the slot whose emptiness is tested never holds the bare element"""
     for cls in classes:
-        notifiers = {}
-        for mname, fn in cls.methods.items():
-            if mname == '__init__':
+        entries = [f for _, f in ctx.entry_methods(cls) if f.name != '__init__']
+        notifiers, W = {}, set()
+        for fn in entries:
+            if fn.is_coro:
                 continue
-            txt = [n for n in own_nodes(fn.node) if isinstance(n, ast.Attribute) and n.attr in ('notify', 'notify_all')]
-            if txt:
-                written = {self_field(t) for s in own_nodes(fn.node) if isinstance(s, ast.Assign) for t in s.targets
-                           if self_field(t) and isinstance(t, ast.Attribute)}
-                notifiers[mname] = written
-        if not notifiers:
-            continue
-        W = set().union(*notifiers.values())
-        for mname, fn in cls.methods.items():
-            if not fn.is_coro or mname in notifiers:
-                continue
-            waits = [n for n in own_nodes(fn.node) if isinstance(n, (ast.Yield, ast.Await)) and isinstance(n.value, ast.Call)
-                     and isinstance(n.value.func, ast.Attribute) and n.value.func.attr == 'wait'
-                     and 'condition' in src(n.value.func.value).lower()]
-            if not waits:
-                continue
-            loops = [l for l in own_nodes(fn.node) if isinstance(l, ast.While)]
-            outer = [l for l in loops if any(w is x for w in waits for x in ast.walk(l))]
-            if not outer:
-                continue
-            other_sus = any(isinstance(n, (ast.Yield, ast.Await)) and n not in waits for l in outer for n in ast.walk(l))
-            if not other_sus:
-                continue
-            con = ctx.construct(fn)
-            # (a) predicate loop / test on a message field written by the notifier
-            a_ok = False
-            for w in waits:
-                for l in loops:
-                    if any(w is x for x in ast.walk(l)) and not (isinstance(l.test, ast.Constant)):
-                        fields = {self_field(x) for x in ast.walk(l.test) if self_field(x)}
-                        if fields & W:
-                            a_ok = True
-            R.ob('MAILBOX', con, 'predicate-recheck', a_ok,
-                 'condition.wait() is not guarded by a re-check of the message slot (%s): a notification that arrives '
-                 'while the coroutine is suspended elsewhere is lost' % ', '.join(sorted(W)),
-                 ctx.where(fn, waits[0].lineno))
-            # (b) consume-on-read before the next suspension
-            bad, n = None, 0
             for st, status in ctx.paths(fn, cls):
                 evs = st.events
+                ni = [i for i, e in enumerate(evs) if _is_notify(e)]
+                if not ni:
+                    continue
+                notifiers[fn.name] = fn
+                for e in evs[:ni[-1]]:
+                    if e.kind == 'ST' and e.c == 'assign':
+                        W.add(e.a)
+        if not notifiers or not W:
+            continue
+        for fn in entries:
+            if not fn.is_coro or fn.name in notifiers:
+                continue
+            paths = list(ctx.paths(fn, cls))
+            if not any(_is_cond_wait(e) for st, status in paths for e in st.events):
+                continue
+            if not any(e.kind == 'EM' for st, status in paths for e in st.events):
+                continue
+            con = ctx.construct(fn)
+            tested_fields = set()
+            bad_a, bad_b, n = None, None, 0
+            for st, status in paths:
+                evs = st.events
+                for e in evs:
+                    tested_fields |= (_tested_fields(e) & W)
                 for seg in _top_loop_segments(evs):
                     ems = [i for i, e in enumerate(seg) if e.kind == 'EM']
                     if not ems:
                         continue
                     n += 1
                     i = ems[0]
-                    # between the last wait / predicate exit and the emission's suspension the slot must be emptied
+                    # the read of the slot that feeds the emission: first read / take / reset of a slot field in the segment
+                    # that is not itself inside a test
+                    reads = [j for j, e in enumerate(seg[:i + 1]) if (e.kind in ('TK',) and e.a in W)
+                             or (e.kind == 'ST' and e.a in W) or (e.kind == 'EM')]
+                    i_read = reads[0]
+                    last_sus = max([j for j, e in enumerate(seg[:i_read]) if e.kind == 'SUS'] or [-1])
+                    tests = [j for j, e in enumerate(seg[:i_read]) if j > last_sus and (_tested_fields(e) & W)]
+                    if not tests:
+                        bad_a = evs
                     consumed = any(x.kind == 'ST' and x.a in W and (x.c == 'reset' or x.x.get('empty')) for x in seg[:i]) or \
                         any(x.kind == 'TK' and x.a in W for x in seg[:i])
                     if not consumed:
-                        bad = evs
+                        bad_b = evs
+            R.ob('MAILBOX', con, 'predicate-recheck', bad_a is None and n > 0,
+                 'condition.wait() is not followed by a re-check of the message slot (%s) before the slot is read: a '
+                 'notification that arrives while the coroutine is suspended elsewhere is lost / a spurious wake-up reads an '
+                 'empty slot' % ', '.join(sorted(W)), ctx.where(fn, fn.node.lineno), fmt_path(bad_a) if bad_a else None, n)
             # (c) every store into the message slot is followed by a notification, unconditionally
-            for nname in notifiers:
-                nfn = cls.methods[nname]
+            for nname, nfn in notifiers.items():
                 badn, nn = None, 0
+                bare = None
                 for st, status in ctx.paths(nfn, cls):
                     evs = st.events
-                    stores = [i for i, e in enumerate(evs) if e.kind == 'ST' and e.a in W and e.c == 'assign' and not e.x.get('empty')]
+                    stores = [i for i, e in enumerate(evs) if e.kind == 'ST' and e.a in W and e.c == 'assign' and not e.x.get('empty')
+                              and e.b and 'x' in e.b]
                     if not stores or is_failure(evs, status):
                         continue
                     nn += 1
-                    notified = any((e.kind == 'DEFER' and e.c and 'notify' in e.c) or
-                                   (e.kind == 'CALL' and e.c in ('notify', 'notify_all')) for e in evs[stores[0]:])
-                    if not notified:
+                    if not any(_is_notify(e) for e in evs[stores[0]:]):
                         badn = evs
+                    # (d) the slot wraps the element, so that no element value can look like "empty"
+                    for i in stores:
+                        e = evs[i]
+                        if isinstance(e.x.get('value'), ast.Name) and e.b == frozenset({'x'}) and e.a in tested_fields:
+                            bare = (e, evs)
                 R.ob('MAILBOX', ctx.construct(nfn), 'notify-on-every-store', badn is None and nn > 0,
                      'a path stores a new element into the slot without notifying the forwarding coroutine: it can sleep for '
                      'ever on an occupied slot', ctx.where(nfn, nfn.node.lineno), fmt_path(badn) if badn else None, nn)
-                # (d) the slot wraps the element, so that no element value can look like "empty"
-                bare = None
-                for st, status in ctx.paths(nfn, cls):
-                    for e in st.events:
-                        if e.kind == 'ST' and e.a in W and e.c == 'assign' and isinstance(e.x.get('value'), ast.Name) \
-                                and e.b == frozenset({'x'}):
-                            tested = any(self_field(x) == e.a for w_ in waits for l in loops if any(w_ is y for y in ast.walk(l))
-                                         for x in ast.walk(l.test))
-                            if tested:
-                                bare = (e, st.events)
                 R.ob('MAILBOX', ctx.construct(nfn), 'slot-wraps-element', bare is None,
                      'the bare element is stored in the slot whose emptiness the forwarding coroutine tests: an element equal '
                      'to the empty marker (None / falsy) is indistinguishable from "no element"',
                      ctx.where(nfn, bare[0].line) if bare else None, fmt_path(bare[1]) if bare else None)
-            R.ob('MAILBOX', con, 'consume-on-read', bad is None and n > 0,
+            R.ob('MAILBOX', con, 'consume-on-read', bad_b is None and n > 0,
                  'the message slot is not emptied when taken: a second queued notification re-delivers the same element',
-                 ctx.where(fn, fn.node.lineno), fmt_path(bad) if bad else None, n)
+                 ctx.where(fn, fn.node.lineno), fmt_path(bad_b) if bad_b else None, n)
 
 
 # ----------------------------------------------------------------------------- C08 partition timer
